@@ -498,12 +498,18 @@ let pmsg_of_tokens (toks : string list) : pmsg =
         nat_of_int (int_of_string logterm), nat_of_int (int_of_string index))
   | "XPW" :: from :: to_ :: term :: _ :: _ :: _ :: rej :: _ ->
     PW (nat_of_int (int_of_string from), nat_of_int (int_of_string to_), nat_of_int (int_of_string term), rej = "1")
+  | "XMsgTimeoutNow" :: from :: to_ :: term :: _ ->
+    PT (nat_of_int (int_of_string from), nat_of_int (int_of_string to_), nat_of_int (int_of_string term))
+  | "XMsgTransferLeader" :: from :: to_ :: term :: _ ->
+    PL (nat_of_int (int_of_string from), nat_of_int (int_of_string to_), nat_of_int (int_of_string term))
   | _ -> PB (msg_of_tokens toks)
 
 let pmsg_str = function
   | PB m -> msg_str m
   | PV (f, t, tm, lt, i) -> Printf.sprintf "XPV %d %d %d %d %d" (int_of_nat f) (int_of_nat t) (int_of_nat tm) (int_of_nat lt) (int_of_nat i)
   | PW (f, t, tm, r) -> Printf.sprintf "XPW %d %d %d %s" (int_of_nat f) (int_of_nat t) (int_of_nat tm) (if r then "reject" else "grant")
+  | PT (f, t, tm) -> Printf.sprintf "XMsgTimeoutNow %d %d %d" (int_of_nat f) (int_of_nat t) (int_of_nat tm)
+  | PL (f, t, tm) -> Printf.sprintf "XMsgTransferLeader %d %d %d" (int_of_nat f) (int_of_nat t) (int_of_nat tm)
 
 let normalize_pv (n : int) (x : pxstate) : pxstate =
   let arr = Array.init (n + 1) (fun i -> x.px_nodes (nat_of_int i)) in
@@ -520,14 +526,15 @@ let run_tracepv infile outfile =
     flush_group ();
     let gs = List.rev !groups in
     groups := [];
-    if !cur_flags <> 1 && !cur_flags <> 3 then Printf.fprintf oc "S %s SKIP flags=%d\n" !cur_k !cur_flags else begin
+    if (!cur_flags land 1) = 0 || (!cur_flags land 4) <> 0 then Printf.fprintf oc "S %s SKIP flags=%d\n" !cur_k !cur_flags else begin
     let cq = (!cur_flags land 2) <> 0 in
+    let tl = (!cur_flags land 8) <> 0 in
     let n = !cur_n in
     let ids = List.init n (fun i -> nat_of_int (i + 1)) in
     let c0 = ids and c1 = [] in
     let x = ref (normalize_pv n px_init) in
     let fail = ref None in
-    let idx = ref 0 and prevotes = ref 0 and precand = ref 0 and elections = ref 0 and stepdowns = ref 0 and leased = ref 0 in
+    let idx = ref 0 and prevotes = ref 0 and precand = ref 0 and elections = ref 0 and stepdowns = ref 0 and leased = ref 0 and dropped = ref 0 and timeoutnow = ref 0 in
     let prevrole = Array.make (n + 1) "F" in
     (try
        List.iter (fun g ->
@@ -546,7 +553,10 @@ let run_tracepv infile outfile =
            let candidates : pevent list =
              (try match base with
                 | "C" -> [PvCampaign]
-                | "P" -> [PvPropose (nat_of_int (int_of_string (List.hd g.g_args)))]
+                | "P" ->
+                  (* a leader drops proposals while a leadership transfer is in progress *)
+                  [PvPropose (nat_of_int (int_of_string (List.hd g.g_args)))] @ (if tl then [PvTick] else [])
+                | "TL" -> [PvTick]      (* RawNode.TransferLeader: nothing observed changes; it may send MsgTimeoutNow / forward *)
                 | "T" ->
                   (* a tick that fired the election timeout of a pre-candidate changes nothing that is
                      observed (same term, same role) but restarts the pre-election: tell it by the
@@ -560,7 +570,7 @@ let run_tracepv infile outfile =
                   (* Config.CheckQuorum: a vote request may be ignored altogether (leader lease) *)
                   [PvRecv (pmsg_of_tokens g.g_args)]
                   @ (match g.g_args with ("V" | "XPV") :: _ when cq -> [PvTick] | _ -> [])
-                | "FP" | "FPD" -> (match g.g_args with _ :: _ :: _ :: p :: _ -> [PvPropose (nat_of_int (int_of_string p))] | _ -> failwith "bad FP")
+                | "FP" | "FPD" -> (match g.g_args with _ :: _ :: _ :: p :: _ -> [PvPropose (nat_of_int (int_of_string p))] @ (if tl then [PvTick] else []) | _ -> failwith "bad FP")
                 | k -> failwith ("unknown event kind " ^ k)
               with Unmodelled c -> fail := Some (Printf.sprintf "event=%d reason=unmodelled-message %s" !idx c); raise Exit) in
            let rec try_all_ok evs = match evs with
@@ -570,6 +580,7 @@ let run_tracepv infile outfile =
                    (match ev, base with
                     | PvStepDown, _ -> incr stepdowns
                     | PvTick, ("D" | "DD") -> incr leased
+                    | PvTick, ("P" | "FP" | "FPD") -> incr dropped
                     | _ -> ());
                    Some x'
                  | _ -> try_all_ok rest) in
@@ -583,6 +594,7 @@ let run_tracepv infile outfile =
               if rolecode = "L" && prevrole.(g.g_id) <> "L" then incr elections;
               prevrole.(g.g_id) <- rolecode;
               (match g.g_args with "XPW" :: _ when base = "D" || base = "DD" -> incr prevotes | _ -> ());
+              (match g.g_args with "XMsgTimeoutNow" :: _ when base = "D" || base = "DD" -> incr timeoutnow | _ -> ());
               x := normalize_pv n x'
             | PVBadEvent -> fail := Some (Printf.sprintf "event=%d reason=delivered-message-never-sent | %s" !idx (String.concat " " g.g_args)); raise Exit
             | PVMissingReply m -> fail := Some (Printf.sprintf "event=%d reason=missing-reply | model replies: %s | %s %d %s" !idx (pmsg_str m) g.g_kind g.g_id (String.concat " " g.g_args)); raise Exit
@@ -591,7 +603,7 @@ let run_tracepv infile outfile =
      with Exit -> ());
     (match !fail with
      | Some f -> Printf.fprintf oc "S %s FAIL %s\n" !cur_k f
-     | None -> Printf.fprintf oc "S %s OK events=%d nodes=%d elections=%d precandidacies=%d prevoteresp=%d checkquorum=%d stepdowns=%d leased=%d\n" !cur_k !idx n !elections !precand !prevotes (if cq then 1 else 0) !stepdowns !leased)
+     | None -> Printf.fprintf oc "S %s OK events=%d nodes=%d elections=%d precandidacies=%d prevoteresp=%d checkquorum=%d stepdowns=%d leased=%d transfer=%d timeoutnow=%d dropped=%d\n" !cur_k !idx n !elections !precand !prevotes (if cq then 1 else 0) !stepdowns !leased (if tl then 1 else 0) !timeoutnow !dropped)
     end in
   List.iter (fun l ->
       match split_ws l with
